@@ -272,8 +272,9 @@ theorem irf_block_abort (s c1 : Cache) (hg : Good s) (hc1 : core c1 = core s.tbe
   simp only [core, Core.mk.injEq, hcr, hnil]
   exact ⟨rfl, hfl, hnf, hg.depth.symm, hg.snap.symm, hg.pending.symm, hg.created.symm, hcf, hst⟩
 
-theorem irf_popitem (x : Index) (E : Externals) (now : Int) (last : Bool) (h : irf_Inv x.cache)
-    (hcodec : ∀ r ∈ x.cache.rows,
+/-- `popitem`, with the key-codec round trip asked of the edge row only (the row it pops) -/
+theorem irf_popitem_edge (x : Index) (E : Externals) (now : Int) (last : Bool) (h : irf_Inv x.cache)
+    (hcodec : ∀ r, irf_edge x.cache.rows last = some r →
       DC.put E x.cache.cfg.disk (DC.get E x.cache.cfg.disk r.key r.raw) = (r.key, r.raw)) :
     (x.popitem E now last).2 = (OSpec.popitem (irf_abs x.cache) E x.cache.cfg last).2 ∧
     irf_abs (x.popitem E now last).1.cache = (OSpec.popitem (irf_abs x.cache) E x.cache.cfg last).1 ∧
@@ -309,7 +310,7 @@ theorem irf_popitem (x : Index) (E : Externals) (now : Int) (last : Bool) (h : i
     have hd1 : c1.depth = 1 := congrArg Core.depth hc1
     have hcf1 : c1.cfg = s.cfg := congrArg Core.cfg hc1
     have hr1 : c1.rows = s.rows := congrArg Core.rows hc1
-    have hk : keyOf E s.cfg (DC.get E s.cfg.disk r.key r.raw) = (r.key, r.raw) := hcodec r hrm
+    have hk : keyOf E s.cfg (DC.get E s.cfg.disk r.key r.raw) = (r.key, r.raw) := hcodec r he
     have hsel0 : s.selLive (keyOf E s.cfg (DC.get E s.cfg.disk r.key r.raw)).1
         (keyOf E s.cfg (DC.get E s.cfg.disk r.key r.raw)).2 now = some r := by
       rw [hk]
@@ -357,5 +358,13 @@ theorem irf_popitem (x : Index) (E : Externals) (now : Int) (last : Bool) (h : i
     · show c2.tend.cfg = s.cfg
       rw [show c2.tend.cfg = (s.delitem E now (DC.get E s.cfg.disk r.key r.raw)).1.cfg from
         congrArg Core.cfg hcore, hC]
+
+theorem irf_popitem (x : Index) (E : Externals) (now : Int) (last : Bool) (h : irf_Inv x.cache)
+    (hcodec : ∀ r ∈ x.cache.rows,
+      DC.put E x.cache.cfg.disk (DC.get E x.cache.cfg.disk r.key r.raw) = (r.key, r.raw)) :
+    (x.popitem E now last).2 = (OSpec.popitem (irf_abs x.cache) E x.cache.cfg last).2 ∧
+    irf_abs (x.popitem E now last).1.cache = (OSpec.popitem (irf_abs x.cache) E x.cache.cfg last).1 ∧
+    (x.popitem E now last).1.cache.cfg = x.cache.cfg ∧ irf_Inv (x.popitem E now last).1.cache :=
+  irf_popitem_edge x E now last h (fun r he => hcodec r (irf_edge_mem he))
 
 end DC.Cache
